@@ -28,6 +28,7 @@ package cmd
 //@ func evaluateSequence$1
 //@   props C12 C19
 //@   noframe
+//@   keeps var.exitStatus
 //@   assume writeInPlaceHandler != nil
 //@   modifies targetState, targetMode
 //@   ensures @failed-command-leaves-target implies(old(cmdError) != nil, cmdError == old(cmdError) && targetState == old(targetState))
@@ -37,22 +38,37 @@ package cmd
 //@ func evaluateAll$1
 //@   props C12 C19
 //@   noframe
+//@   keeps var.exitStatus
 //@   assume writeInPlaceHandler != nil
 //@   modifies targetState, targetMode
 //@   ensures @failed-command-leaves-target implies(old(cmdError) != nil, cmdError == old(cmdError) && targetState == old(targetState))
 //@   ensures @finish-result-reported implies(cmdError != nil, targetState == old(targetState))
 //@   ensures @not-completed-leaves-target implies(!completedSuccessfully, targetState == old(targetState))
 
+// the printer's answer to "was anything printed" is asked without changing the -e flag (checked on the call graph)
+//@ func invoke Printer.PrintedAnything
+//@   trusted
+//@   keeps var.exitStatus
+
+// what runs on the way out (front-matter clean-up, closing the appendix reader, finishing the in-place write)
+// does not change the -e flag either
+//@ func invoke frontMatterHandler.CleanUp
+//@   trusted
+//@   keeps var.exitStatus
+
+
 //@ func evaluateSequence
 //@   props C12 C19
 //@   noframe
 //@   nosafety // cobra/flag plumbing with many callees outside the contract set: panic-freedom not claimed
+//@   at return: assert @with-e-success-needs-a-match {C19} implies(result == nil && exitStatus && calls(EvaluateNew) + calls(EvaluateFiles) > 0, calls(PrintedAnything) > 0 && resultOf(PrintedAnything))
 //@   ensures @failure-leaves-file implies(cmdError != nil, targetState == old(targetState))
 
 //@ func evaluateAll
 //@   props C12 C19
 //@   noframe
 //@   nosafety // cobra/flag plumbing with many callees outside the contract set: panic-freedom not claimed
+//@   at return: assert @with-e-success-needs-a-match {C19} implies(result == nil && exitStatus && calls(EvaluateNew) + calls(EvaluateFiles) > 0, calls(PrintedAnything) > 0 && resultOf(PrintedAnything))
 //@   ensures @failure-leaves-file implies(cmdError != nil, targetState == old(targetState))
 
 // utils.go: the formats chosen automatically are those named by the FIRST file's extension (C19)
